@@ -20,6 +20,7 @@ type cacheFunctions[MetadataT any] struct {
 	getCacheSize  func() int64
 	getCacheLen   func() int
 	getLock       func(key CacheKey) *sync.RWMutex
+	getMetadata   func(key CacheKey) (*EntryMetadata[MetadataT], bool)
 }
 
 type cacheJanitor[MetadataT any] struct {
@@ -120,6 +121,14 @@ func (j *cacheJanitor[MetadataT]) cleanExpiredEntries() {
 		locked := lock.TryLock()
 		if !locked {
 			slog.Info("Failed to acquire lock for key", "key", key.Hex)
+			continue
+		}
+
+		// The entry may have been replaced or revalidated since the scan above;
+		// only remove it if what is stored now is still expired.
+		if meta, ok := j.cacheFns.getMetadata(key); !ok || !meta.Expires.Before(time.Now()) {
+			lock.Unlock()
+			slog.Info("Cache entry is no longer expired, keeping it", "key", key.Hex)
 			continue
 		}
 
